@@ -252,7 +252,9 @@ def cmd_check(args):
             samples.append({"obligation": ob["name"], "kind": ob["kind"], "hypotheses": ob["nhyps"],
                             "verdict": v["verdict"], "backend": v["backend"], "time_s": round(v["time_s"], 4)})
     level = info.get("level", "proof")
-    n_total = n_obl + len(ground)
+    # obligations kept only to re-establish a recorded (known) finding are reported separately, not as proof obligations
+    n_known_smt = sum(1 for u, ob, v in failed if any(k.get("obligation") == ob["name"] for k in known_for_pid))
+    n_total = n_obl + len(ground) - n_known_smt
     n_disch = proved + ground_ok
     coverage = {
         "obligations": n_total,
